@@ -296,7 +296,7 @@ func (e BridgeEngine) genClaims(r *Run, c *ChainSt, v *ChainView) []Tx {
 		if r.Cfg.FaultOn("double-vote") && r.Pct(8) && next > 1 {
 			// vote again for an already voted nonce (possibly another variant)
 			a := A("chain", c.Name, "o", i, "n", next-1)
-			if ev := c.Ext.Event(next - 1); ev != nil && r.Pct(50) {
+			if ev := c.Ext.Event(next - 1); ev != nil && r.Pct(50) && r.Cfg.FaultOn("conflicting-claim") {
 				if f, val := e.variantFor(r, c, ev); f != "" {
 					a["variant"], a["vval"] = f, val
 				}
